@@ -147,7 +147,10 @@ def body_fitted(case):
         else:
             X, _ = est.fit_underdetermined(B, underdetermined_opt=case["opt"], l2_eps=1e-4)
     rng = sv.ub - sv.lb
-    tol = 1e-2 * float(np.max(rng))
+    # a fit reproduces the target to the solver's 2e-2 capture units; along poorly conditioned directions of A' this allows
+    # intensities 2e-2 / sigma_min away from the exact solution polytope
+    smin = float(np.linalg.svd(sv.Ap, compute_uv=False)[min(sv.Ap.shape) - 1])
+    tol = max(1e-2 * float(np.max(rng)), 4 * 2e-2 / max(smin, 1e-12))
     check(np.all(X >= xmins - tol) and np.all(X <= xmaxs + tol), "fitted:outside-range",
           f"fitted solution {np.asarray(X).tolist()} not between the reported ends [{np.asarray(xmins).tolist()}, {np.asarray(xmaxs).tolist()}]")
     labs = sv.labels() + [f"opt:{case['opt']}", "nt:fitted-between-ends"]
